@@ -251,6 +251,14 @@ static void history_case(Tape& t, Ctx& c)
       w.m.s[di] = src; break; }
     case O_XCONV: { // DV64<->DV32, CSR64<->CSR32: copies into new arrays of the other types
       int tk = -1; switch(src.kind) { case K_DV64: tk = K_DV32; break; case K_DV32: tk = K_DV64; break; case K_CSR64: tk = K_CSR32; break; case K_CSR32: tk = K_CSR64; break; default: break; }
+      if(tk < 0 && src.kind == K_DVB2 && !src.view && !src.e.empty() && w.m.arr.at(src.e[0]).count > 0)
+      {
+        // scalar view of a blocked vector: DenseVector::convert(DenseVectorBlocked) SHARES the value array (one more reference) and must
+        // record its full length (blocks x block size): every later clone / convert / format of the view relies on that number
+        if(di == si) di = (si + 1) % 8; opn = "convert:blocked-to-scalar"; h.set("op", opn); h.set("src", si); h.set("dst", di); w.note(h, opn);
+        auto* q = new ODV64(); q->c.convert(static_cast<ODVB2&>(*w.o[si]).c);
+        w.drop(di); if(w.m.s[si].kind < 0) { delete q; --st; continue; } w.o[di].reset(q); MSlot ms; ms.kind = K_DV64; ms.e = src.e; w.m.s[di] = ms; break;
+      }
       if(tk < 0 && (src.kind == K_BCSR22 || src.kind == K_CSCR || src.kind == K_BAND))
       {
         // format-changing conversion into CSR<double,u64>: all arrays of the result are new; their recorded sizes must be the
